@@ -18,5 +18,5 @@ if [ "${SKIP_TESTS:-0}" != "1" ]; then
   (cd "$W/repo" && PYTHONPATH="$W/repo/src" timeout 900 /venv/bin/python -m pytest -q -p no:cacheprovider 2>&1 | tail -1)
 fi
 for c in $ID "$@"; do
-  HPL_VERIF_REPO="$W/repo" HPL_VERIF_OUT="$W/out" timeout ${MUTANT_TIMEOUT:-1500} /verif/check "$c" --tier "$TIER" 2>&1 | grep -v conda | grep -E "signature|^C[0-9]+ " | cut -c1-230 | head -${MUTANT_LINES:-5}
+  HPL_VERIF_REPO="$W/repo" HPL_VERIF_OUT="$W/out" timeout ${MUTANT_TIMEOUT:-1500} ${VERIF_DIR:-/verif}/check "$c" --tier "$TIER" 2>&1 | grep -v conda | grep -E "signature|^C[0-9]+ " | cut -c1-230 | head -${MUTANT_LINES:-5}
 done
